@@ -447,7 +447,7 @@ def programs_for_graphs(seed: int, count: int) -> List[str]:
 # ------------------------------------------------------------------------------------------------------------
 # Size-bounded EXHAUSTIVE generation of control skeletons (DESIGN 6.1): every program with at most `budget`
 # compound statements, nesting <= depth, whose tests are oracle calls and whose statements are call markers.
-def enumerate_control(budget: int = 3, depth: int = 3, with_for: bool = True, test_shape: str = "call") -> List["Program"]:
+def enumerate_control(budget: int = 3, depth: int = 3, with_for: bool = True, test_shape: str = "call", bare_tail: bool = False) -> List["Program"]:
     counter = [0]
 
     def mark() -> Node:
@@ -493,9 +493,10 @@ def enumerate_control(budget: int = 3, depth: int = 3, with_for: bool = True, te
     def build_suite(shape: Any) -> List[Node]:
         _, comps, term = shape
         out: List[Node] = [mark()]
-        for c in comps:
+        for j, c in enumerate(comps):
             out.append(build_compound(c))
-            out.append(mark())
+            if not (bare_tail and j == len(comps) - 1 and term is None):
+                out.append(mark())          # bare_tail: the suite ENDS in its last compound statement
         if term == "return":
             counter[0] += 1
             out.append(Node("return", v=Node("t", arg=counter[0])))
